@@ -43,4 +43,10 @@ theorem transform_deterministic {σ : Type} (Q : Cvise.P.TextPass σ) (s s' : Cv
 
 theorem scratch_removed : Gen.ifsScratchRemoved = true := by decide
 
+/-- every pass method that creates a temporary file next to the candidate unlinks or moves it on every return path
+    (finite table, regenerated on every run by a path-sensitive reading of the method bodies) -/
+theorem scratch_removed_on_every_path : Gen.scratchFacts.all (fun f => f.2) = true := by decide
+
+example : Gen.scratchFacts.length ≥ 8 := by decide
+
 end Cvise.C11
